@@ -16,7 +16,7 @@ META = {
             'theorem C05_origin_or_unset); views follow the per-file keep/write/symlink/delete semantics (that is C04); a symlinked location points to a list that no later layer touches.',
 }
 P = 'Scalibr.Trace.'
-THEOREMS = [P + t for t in ('C05_spec_view', 'C05_origin_or_unset', 'C05_origin', 'C05_origin_spec', 'C05_cache_transparent', 'C05_populate',
+THEOREMS = [P + t for t in ('C05_spec_view', 'C05_origin_or_unset_partial', 'C05_symlink_target_rewritten', 'C05_origin', 'C05_origin_spec', 'C05_cache_transparent', 'C05_populate_partial',
                             'C05_populate_complete', 'C05_origin_is_write', 'C05_empty_layers_inert', 'C05_alignment', 'C05_details',
                             'C05_details_no_history', 'originSpec_iff')]
 
@@ -32,7 +32,7 @@ def _cancel(case):
 
 
 SIZE_MODULE = 'Scalibr.Properties.C10Trace'
-SIZE_THEOREMS = ['Scalibr.TraceSize.C10_trace_sizes', 'Scalibr.TraceSize.traceSizes_le']
+SIZE_THEOREMS = ['Scalibr.TraceSize.C10_trace_sizes', 'Scalibr.TraceSize.traceSizes_le', 'Scalibr.TraceSize.C10_trace_inodes_disclosed']
 
 
 def run_size_limit(ctx):
@@ -42,7 +42,9 @@ def run_size_limit(ctx):
     with the real ScanContainer, MaxFileSize in {0,5,7,8,16,17,40,4096} and MaxInodes in {0,50,1000}, with an extractor that records
     how many bytes every Extract call is handed. Oracle: every recorded size is at most the limit (when one is set) - the statement of
     C10_trace_sizes; tie: the recorded sizes, in call order, equal the model's (Model/TraceSize.lean: main scan of the final view,
-    then the trace walking down the views). The caller (checks/c10.py) audits SIZE_THEOREMS in SIZE_MODULE."""
+    then the trace walking down the views). DISCLOSED, not claimed: the trace's re-runs each start a fresh inode counter (one inode per
+    run), so the inode visits of one ScanContainer call are not bounded by MaxInodes as a total; their number (`runs`, counted with a stats
+    collector) is compared with the model's traceInodes (Properties/C10Trace.lean, C10_trace_inodes_disclosed). The caller (checks/c10.py) audits SIZE_THEOREMS in SIZE_MODULE."""
     ok, _ = ctx.lean_build([SIZE_MODULE, 'drv_c05'])
 
     def sizes(f):
@@ -73,7 +75,7 @@ def run_size_limit(ctx):
 
     n = {'quick': 2500, 'thorough': 40000}[ctx.tier]
     args = ['-seed', str(ctx.seed), '-n', str(n), '-tier', 'quick', '-only', 'sizes', '-also', lib.VERIF + '/corpus/C05/sizes.case']
-    st = lib.standard_stream(ctx, gen='c05gen', driver='drv_c05', gen_args=args, compare_keys=['_', 'sizes'],
+    st = lib.standard_stream(ctx, gen='c05gen', driver='drv_c05', gen_args=args, compare_keys=['_', 'sizes', 'runs'],
                              nontrivial=nontrivial, oracle=oracle, classify=classify)
     return ok and st
 
@@ -82,7 +84,8 @@ def run(ctx):
     ctx.trusted = ['Lean 4.33.0 kernel', 'axioms: propext, Quot.sound, Classical.choice at most (see theorems.*.axioms)',
                    'harness/cmd/c05gen (go-containerregistry images with history, Scanner.ScanContainer, fake extractor) + lean/Drivers/C05.lean line protocol',
                    'Lean compiler for the driver executable']
-    ctx.assumptions = ['per file, a chain layer keeps, writes, deletes the file or replaces it by a symlink to another list (whose target no later layer touches); the image-up-to-layer views follow that (C04 is the property about views)',
+    ctx.assumptions = ['what an extractor reports for a location depends only on the object at that path (hypothesis hd of the _partial theorems: filesExistInLayer answers "yes" exactly when the layer changed it); known to fail for symlinked locations whose target is rewritten (op t, finding C05/location-content-depends-on-other-paths) and, outside this stream, for extractors that read a second file (os/dpkg: etc/os-release) or report a first location they are not required for (go.sum of gomod)',
+                       'per file, a chain layer keeps, writes, deletes the file or replaces it by a symlink to another list (whose target no later layer touches); the image-up-to-layer views follow that (C04 is the property about views)',
                        'one extractor per file, one location per package: the cache key (location, layer index) then determines the extraction result',
                        'filesystem.Run inside the trace fails only through the context (ErrorOnFSErrors and MaxInodes do not reach it): cancellation is modelled as "after k re-extractions"; extraction is a function of the file content; an Extract error does not drop the packages it returned',
                        'package identity = (purl, Locations[0]); the fake extractor emits purls pkg:generic/<name>@<version>, names are shared between versions']
@@ -143,8 +146,15 @@ def run(ctx):
                                                   ' symlink' if any('/s' in l for l in ls) else '', ' ancestor-op' if any('/a' in l or '/r' in l for l in ls) else '',
                                                   (' cancelled(unset=%s)' % ('0' if unset == 0 else '1+')) if _cancel(case) else '')
 
+    def finding_class(case, fi, fm):
+        # the location's content depends on another path: here, a symlinked location whose TARGET a layer rewrites (op t)
+        _, _, ls = _layers(case)
+        if any(op.startswith('t') for l in ls if l != 'E' for op in l.split('/')[1:]):
+            return 'C05/location-content-depends-on-other-paths'
+        return None
+
     lib.standard_stream(ctx, gen='c05gen', driver='drv_c05', gen_args=['-seed', str(ctx.seed), '-n', str(n), '-tier', ctx.tier],
-                        compare_keys=['_', 'n', 'pk'], nontrivial=nontrivial, oracle=oracle, classify=classify)
+                        compare_keys=['_', 'n', 'pk'], nontrivial=nontrivial, oracle=oracle, classify=classify, finding_class=finding_class)
     if len(ctx.dist) > 200:
         top = dict(sorted(ctx.dist.items(), key=lambda kv: -kv[1])[:200])
         top['(other shapes)'] = sum(ctx.dist.values()) - sum(top.values())
